@@ -55,6 +55,7 @@ COMPONENTS = {
 EXPECTED_PROBES = ["kind_sched", "kind_clients", "kind_numba", "two_clients_inside_build_sindex",
                    "pickle_of_indexed_object", "cold_cache_first_access_concurrent"]
 
+ENV = {"NUMBA_NUM_THREADS": "16"}      # the sweep needs up to 16 numba threads
 REPO = "/repo/spatialpandas"
 WORKLOADS = ("cx", "sjoin", "measures", "intersects_bounds", "pack", "pack_parquet", "read_cx")
 CLIENT_OBJECTS = ("array", "rtree", "frame", "dask")
@@ -190,7 +191,8 @@ def _workload(case, root, fs):
         if wl == "pack_parquet":
             res = out.compute()
             return ("pp", _canon_df(res), out.npartitions,
-                    e1.dataset_fingerprint(e1.read_dataset(root)))
+                    e1.dataset_fingerprint(e1.read_dataset(root)),
+                    ("conflicts", tuple(fs.store.conflicts)))
         rr = read_parquet_dask(os.path.join(root, "ds"), filesystem=fs)
         return ("rc", _canon_df(rr.cx[b[0]:b[2], b[1]:b[3]].compute()), rr.npartitions)
     raise ValueError(wl)
